@@ -266,12 +266,12 @@ def rereadGroup (indentStr : List Char) (blank : Bool) : List Field → List Fie
 
 /-- `alignment_exact` as a predicate on what a second look at the output measures: for every field of one
 group its prefix width (`trimmed_last_line_width` of name and colon) and the width of the text in front of its
-value (prefix, blank, padding).  With `max - min` within the threshold every value starts at `max + 1`;
-otherwise nothing is padded. -/
+value (prefix, blank, padding; `0` for a skipped field, whose text is not touched: it counts for the widths
+only).  With `max - min` within the threshold every value starts at `max + 1`; otherwise nothing is padded. -/
 def alignOK (threshold : Nat) (fs : List (Nat × Nat)) : Bool :=
   let mx := (fs.map (·.1)).foldl max 0
   let mn := (fs.map (·.1)).foldl min 18446744073709551615
-  if mx - mn > threshold then fs.all fun p => p.2 == p.1 + 1
-  else fs.all fun p => p.2 == mx + 1
+  if mx - mn > threshold then fs.all fun p => p.2 == 0 || p.2 == p.1 + 1
+  else fs.all fun p => p.2 == 0 || p.2 == mx + 1
 
 end RF.Vertical
